@@ -150,6 +150,39 @@ def run(a, rep, TypesBuild, tref):
                         rep.violation(sig("unlisted-name-not-exposed"), "%s [%s]: %s exposes the name %r" % (label, cname, text, r.get("name")), case)
                     else:
                         rep.outcome("unlisted:preserved")
+        # the other way in: the text itself through FromPlain / FromStr (path, query and header
+        # parameters arrive like this) classifies every name the same way
+        if kind == "enum":
+            texts = [(json.loads(c[0]), c[1]) for c in cases if c[1] != "ill-formed"]
+            rep.states += len(texts)
+            presp = tb.probe(ci).ask({"ty": "plain:%s:%s" % (cname, name), "op": "from_plain", "docs": [t_[0] for t_ in texts]})
+            for (text, cls), r in zip(texts, presp.get("results") or []):
+                rep.evaluations += 1
+                rep.transitions += 1
+                case = {"type": name, "config": cname, "doc": json.dumps(text), "side": "p"}
+                sig = lambda k: "C10|%s|from-plain|%s|%s" % (k, label, "exhaustive" if cfg["exhaustive"] else "default")
+                if r.get("panic"):
+                    rep.violation(sig("panic"), "%s: from_plain(%r) panicked" % (label, text), case)
+                elif cls == "listed":
+                    if not r["ok"]:
+                        rep.violation(sig("listed-rejected"), "%s [%s]: listed value %s is rejected by FromPlain / FromStr" % (label, cname, text), case)
+                    elif r["dbg"].startswith("Unknown("):
+                        rep.violation(sig("listed-classified-as-unknown"), "%s [%s]: FromPlain / FromStr classify listed value %s as %s" % (label, cname, text, r["dbg"]), case)
+                    elif r["plain"] != text or r["json"] != json.dumps(text):
+                        rep.violation(sig("listed-not-itself"), "%s [%s]: FromPlain / FromStr turn listed value %s into %s / %s" % (label, cname, text, r["plain"], r["json"]), case)
+                    else:
+                        rep.outcome("from-plain:listed:classified-as-itself")
+                elif cfg["exhaustive"]:
+                    if r["ok"]:
+                        rep.violation(sig("unlisted-accepted-when-exhaustive"), "%s [%s, exhaustive]: FromPlain / FromStr accept unlisted %s as %s" % (label, cname, text, r["dbg"]), case)
+                    else:
+                        rep.outcome("from-plain:unlisted:rejected-when-exhaustive")
+                elif not r["ok"]:
+                    rep.violation(sig("unlisted-rejected"), "%s [%s]: FromPlain / FromStr reject the unlisted but well-formed %s" % (label, cname, text), case)
+                elif not r["dbg"].startswith("Unknown(") or r["plain"] != text or r["json"] != json.dumps(text):
+                    rep.violation(sig("unlisted-not-preserved"), "%s [%s]: FromPlain / FromStr turn unlisted %s into %s (text %s)" % (label, cname, text, r["dbg"], r["plain"]), case)
+                else:
+                    rep.outcome("from-plain:unlisted:preserved")
         # a run of documents that break off inside an unlisted variant's payload (same process, same
         # thread) must leave nothing behind: the well-formed nested payloads after it still survive
         if kind == "union" and not cfg["exhaustive"] and name in ("Un", "Union3", "Union1"):
